@@ -114,6 +114,15 @@ Theorem C18_stop_order :
 Proof. exact stop_order_lemma. Qed.
 Print Assumptions C18_stop_order.
 
+(* every actor that is running when the finally block is entered is stopped exactly once *)
+Theorem C18_stopped_exactly_once :
+  forall o, exists z s,
+      run_command o = (Val z, s) /\ NoDup (stops_of (events s)) /\
+      (forall c, In c (stops_of (events s)) <->
+                 In c (frontends_alive o ++ core_alive o ++ backends_alive o ++ audio_alive o ++ mixer_alive o)).
+Proof. exact stopped_exactly_once_lemma. Qed.
+Print Assumptions C18_stopped_exactly_once.
+
 (* T5: the state is saved exactly once iff restore_state is enabled and the core started;
    the save happens after all frontends stopped and before core, backends, audio, mixer. *)
 Theorem C18_state_saved_once :
